@@ -122,7 +122,35 @@ def check_matrix(m):
         tol = 2 ** -16 if fmt == "PaintTransform" else 1.0 + 2 ** -14 * max(centre, 1.0)
         if abs(B[i] - m[i]) > tol:
             return fmt, ("C16.roundtrip", f"{m} emitted as {fmt}: binary holds {tuple(round(v, 6) for v in B)} (translation {i} off by {abs(B[i] - m[i]):.3g}: wrapped or clamped?)")
+    # (3) nanoemoji's own reading of what it wrote (Paint.from_ot, the way COLR is read for the conversion to SVG)
+    # denotes the same affine as the oracle's reading of the binary
+    from vmc.oracles.colr_eval import ColrPicture
+
+    pic = ColrPicture(font)
+    q = pic.base_paint("g")
+    R = aff.I
+    while pic.xform(q) is not None:
+        R = aff.mul(R, tuple(_own_transform(P, q)))
+        q = q.Paint
+    for i in range(6):
+        if abs(R[i] - B[i]) > 1e-6 * (1 + abs(B[i])):
+            return fmt, ("C16.read-back", f"{m} emitted as {fmt}: the binary denotes {tuple(round(v, 6) for v in B)}, Paint.from_ot reads it as {tuple(round(v, 6) for v in R)}")
     return fmt, None
+
+
+def _own_transform(P, ot_paint):
+    """the affine nanoemoji's reader assigns to one transform paint of a decompiled COLR table (child paints are not converted)"""
+    import dataclasses
+
+    paint_t = getattr(P, ot_paint.getFormatName())
+    args = {}
+    for f in dataclasses.fields(paint_t):
+        if f.name == "paint":
+            args[f.name] = P.PaintSolid()
+            continue
+        ot_field, conv = P._PAINT_FIELD_TO_OT_FIELD.get(f.name, (f.name, lambda v: v))
+        args[f.name] = tuple(conv(getattr(ot_paint, x)) for x in ot_field) if isinstance(ot_field, tuple) else conv(getattr(ot_paint, ot_field))
+    return paint_t(**args).gettransform()
 
 
 def shard_fn(shard):
